@@ -274,6 +274,18 @@ func c06main(c *Ctx) {
 			vs = append(vs, c06check(payload, cs, c.Testing)...)
 			return payload, vs
 		}
+		// a severity that is logged BEFORE it is registered and again afterwards (registration changes its tag and colours)
+		if r.P(8) {
+			lateLevel := slog.Level(3000 + idx)
+			pre := cs
+			pre.lvl = lateLevel
+			pre.kvs = nil
+			_, _ = run(pre) // unregistered: tag L#3…
+			title := fmt.Sprintf("LATE%d", idx)
+			_ = slog.RegisterLevel(lateLevel, title, slog.RegWithShortTags([6]string{"", "l", "lt", "lte", "late", "late!"}), slog.RegWithColor(color.FgLightGreen))
+			cs.lvl = lateLevel
+			c.R.Add("levels_registered_between_two_records", 1)
+		}
 		desc := cs.desc(FColor)
 		desc["ts"] = cs.ts.Format(time.RFC3339Nano)
 		desc["tag_width"], desc["min_width"], desc["layout_domain"], desc["other_flags"] = cs.tagW, cs.minW, cs.layoutOK, otherFlags
